@@ -9,6 +9,9 @@
 mod common;
 mod c02;
 mod c03;
+mod c04;
+mod c05;
+mod c06;
 mod c09;
 mod c10;
 mod c11;
@@ -20,6 +23,7 @@ mod c16;
 mod c18;
 mod c19;
 mod c20;
+mod dynenc;
 mod gen;
 mod prog;
 
@@ -43,6 +47,9 @@ fn main() {
         "C02" => c02::run(&mut em, &mut rng, thorough),
         "C03" => c03::run(&mut em, &mut rng, thorough),
         "C11" => c11::run(&mut em, &mut rng, thorough),
+        "C04" => c04::run(&mut em, &mut rng, thorough),
+        "C05" => c05::run(&mut em, &mut rng, thorough),
+        "C06" => c06::run(&mut em, &mut rng, thorough),
         "C09" => c09::run(&mut em, &mut rng, thorough),
         "C10" => c10::run(&mut em, &mut rng, thorough),
         "C12" => c12::run(&mut em, &mut rng, thorough),
